@@ -156,7 +156,7 @@ func (s *Sim) fireDue() int {
 				if best.when <= s.now {
 					best.when = satAdd(best.when, best.period)
 				}
-				s.TicksDrop += uint64(k + 1)
+				s.TicksDrop++ // one coalescing event (many missed ticks)
 			}
 		} else {
 			best.active = false
